@@ -32,6 +32,8 @@ func runC01(c *Check, tier string) {
 	ruleR07b(c, "R01i")
 	// every existing input file contributes its bytes
 	ruleR09f(c, "R01j")
+	// a blob is published under its digest only whole (a truncated entry is later restored as if it were the output)
+	shareRule(c, "R01l", "the fs backend publishes an entry only by renaming a fully copied and closed temp file (same obligations as R07a)", 2, "R07a", func(sub *Check) { ruleR07a(sub) }, nil)
 	ruleMemoKeyComplete(c, "R01k", "loading", "hashing", "execution", "output", "dag", "analysis", "selection", "config", "label", "model", "caching", "cmd")
 }
 
@@ -189,6 +191,12 @@ func ruleR01a(c *Check, rule string) {
 	for _, n := range need {
 		key := "key-source/" + n.key.String()
 		if def.Has(n.key) {
+			// may-flow holds; where the field is read and hashed in one function the flow must not be
+			// conditional (a phi that substitutes another value on some path)
+			if why := conditionalKeySource(c, n.key); why != "" {
+				c.Bad(rule, key, n.what+" ("+n.key.String()+") enters the hashed component only on some paths ("+why+"): on the others the key does not depend on it, so a change to it can be served a stale cached result", "-")
+				continue
+			}
 			path := c.G.Path(def, n.key, 6)
 			c.OK(rule, key, n.what+" reaches Target.ChangeHash: "+strings.Join(path, " ; "), "-")
 		} else {
@@ -261,6 +269,122 @@ func ruleR01a(c *Check, rule string) {
 		sort.Strings(unkeyed)
 		c.Note("model.Target fields that do not flow into the change hash (informational): %s", strings.Join(unkeyed, ", "))
 	}
+}
+
+// conditionalKeySource: in a key-composing function that both reads the field and writes a value derived
+// from that read into a hasher, no such write depends on the field on *every* path (each one merges it
+// with an alternative in a phi). Returns "" when some write must-depends on the field, or when the field
+// is not read and hashed within one function (the whole-program may-flow is all that is decided then).
+func conditionalKeySource(c *Check, key engine.FieldKey) string {
+	kf := keyFuncs(c)
+	sinks := hasherSinks(c)
+	isRead := func(v ssa.Value) bool {
+		switch x := v.(type) {
+		case *ssa.FieldAddr:
+			return engine.FieldKeyOf(x.X.Type(), x.Field) == key
+		case *ssa.Field:
+			return engine.FieldKeyOf(x.X.Type(), x.Field) == key
+		}
+		return false
+	}
+	// register-level dependence (operands only, no memory): does v depend on a read of the field?
+	memo := map[ssa.Value]int{}
+	var dep func(v ssa.Value, d int) bool
+	dep = func(v ssa.Value, d int) bool {
+		if v == nil || d > 40 {
+			return false
+		}
+		switch memo[v] {
+		case 1:
+			return true
+		case 2, 3:
+			return false
+		}
+		memo[v] = 3
+		res := isRead(v)
+		if !res {
+			if in, ok := v.(ssa.Instruction); ok {
+				for _, op := range in.Operands(nil) {
+					if op != nil && *op != nil && dep(*op, d+1) {
+						res = true
+						break
+					}
+				}
+			}
+		}
+		if res {
+			memo[v] = 1
+		} else {
+			memo[v] = 2
+		}
+		return res
+	}
+	// a diluting phi on the way: one incoming value carries the field, another (not a constant, not the
+	// phi itself) does not — on that path something else is hashed in its place
+	var diluted func(v ssa.Value, seen map[ssa.Value]bool, d int) (bool, string)
+	diluted = func(v ssa.Value, seen map[ssa.Value]bool, d int) (bool, string) {
+		if v == nil || d > 40 || seen[v] || !dep(v, 0) {
+			return false, ""
+		}
+		seen[v] = true
+		if phi, ok := v.(*ssa.Phi); ok {
+			with, without := 0, 0
+			for _, e := range phi.Edges {
+				if e == ssa.Value(phi) {
+					continue
+				}
+				if _, isConst := e.(*ssa.Const); isConst {
+					continue
+				}
+				if dep(e, 0) {
+					with++
+				} else {
+					without++
+				}
+			}
+			if with > 0 && without > 0 {
+				return true, c.P.InstrPos(phi)
+			}
+		}
+		if in, ok := v.(ssa.Instruction); ok {
+			// every operand route that carries the field must be diluted for the value to be diluted
+			any, all := false, true
+			where := ""
+			for _, op := range in.Operands(nil) {
+				if op == nil || *op == nil || !dep(*op, 0) {
+					continue
+				}
+				any = true
+				dl, w := diluted(*op, seen, d+1)
+				if !dl {
+					all = false
+				} else {
+					where = w
+				}
+			}
+			if any && all {
+				return true, where
+			}
+		}
+		return false, ""
+	}
+	n, nd := 0, 0
+	where := ""
+	for _, s := range sinks {
+		fn := s.Call.Parent()
+		if !kf[fn] || !dep(s.Val, 0) {
+			continue
+		}
+		n++
+		if dl, w := diluted(s.Val, map[ssa.Value]bool{}, 0); dl {
+			nd++
+			where = w
+		}
+	}
+	if n > 0 && nd == n {
+		return "every hasher write that takes it merges it with an alternative value at " + where
+	}
+	return ""
 }
 
 // R01b: every kind of dependency node contributes. Applied to each function
